@@ -31,3 +31,5 @@ func register(p *Property) { Properties[p.ID] = p }
 
 // VerifDir is the /verif directory (set by the command), used to locate checker/testdata.
 var VerifDir string
+
+func init() { core.PinnedFieldTypes = pinnedFieldTypes }
